@@ -100,6 +100,8 @@ package allocator
 //@ pred InvG(a *Allocator, on bool, svc string, al *alloc, i int, j int) :=
 //@     InvMaps(a) && InvSvc(a, on, svc, al, i) && InvPorts(a, on, svc, al, i, j) && InvKeys(a, on, svc, al) && InvAllocs(a, on, al)
 //@ pred Inv(a *Allocator) := InvG(a, false, "", nil, 0, 0)
+// InvD: every service has its own record (Assign makes a fresh one; SetPools re-records the same one for the same service).
+//@ pred InvD(a *Allocator) := forall s1 string, s2 string :: { mapval(a.allocated, s1), mapval(a.allocated, s2) } s1 != s2 && a.allocated[s1] != nil ==> a.allocated[s1] != a.allocated[s2]
 // ---- C20: the pool counters are read by the pool-status reconciler concurrently ----
 //@ guarded_by Allocator.countersMutex : Allocator.poolToCounters
 
@@ -139,6 +141,7 @@ package allocator
 //@   modifies map[string]*alloc, map[Port]string, map[string]bool, map[string]int, map[string]PoolCounters, fresh *ipaddr.Prefix, fresh *ipaddr.Cursor, fresh *ipaddr.Position, fresh []ipaddr.Prefix, gint("cursor.pos"), fresh []string, fresh []interface{}, $held
 //@   requires [unlocked] lockstate(a.countersMutex) == 0
 //@   ensures [unlocked] lockstate(a.countersMutex) == 0 && lockframe(a.countersMutex)
+//@   ensures [distinct] old(InvD(a)) ==> InvD(a)
 //@   requires [inv] Inv(a)
 //@   requires [cb] a.countersChangedCallback != nil
 //@   requires [wf] WFAlloc(alloc)
@@ -229,6 +232,7 @@ package allocator
 //@   modifies map[string]*alloc, map[Port]string, map[string]bool, map[string]int, map[string]PoolCounters, fresh *ipaddr.Prefix, fresh *ipaddr.Cursor, fresh *ipaddr.Position, fresh []ipaddr.Prefix, gint("cursor.pos"), fresh []string, fresh []interface{}, $held
 //@   requires [unlocked] lockstate(a.countersMutex) == 0
 //@   ensures [unlocked] lockstate(a.countersMutex) == 0 && lockframe(a.countersMutex)
+//@   ensures [distinct] old(InvD(a)) ==> InvD(a)
 //@   ensures Inv(a)
 //@   ensures a.allocated[svc] == nil
 //@   ensures forall s string :: s != svc ==> a.allocated[s] == old(a.allocated[s])
@@ -297,7 +301,16 @@ package allocator
 //@ lemma C01.exclusive: forall a *Allocator, x string, s1 string, s2 string ::
 //@     Inv(a) && s1 != s2 && Holds(a, s1, x) && Holds(a, s2, x) ==> CompatRecs(a.allocated[s1], a.allocated[s2])
 
+// ---- C03: a holder can always be re-recorded (SetPools re-homes allocations with the internal assign) ----
+//@ lemma C03.recorded: forall a *Allocator, x string, s string :: Inv(a) && a.allocated[s] != nil && HasIP(a.allocated[s], x) ==> (s in a.servicesOnIP[x])
+//@ lemma C03.safeKey: forall a *Allocator, svc string, x string, s string :: Inv(a) && a.allocated[svc] != nil && s != svc && (s in a.servicesOnIP[x]) && HasIP(a.allocated[svc], x) ==>
+//@     a.allocated[s].sharing == a.allocated[svc].sharing && a.allocated[svc].sharing != "" && a.allocated[s].backend == a.allocated[svc].backend
+//@ lemma C03.safePorts: forall a *Allocator, svc string, x string, s string, p Port :: Inv(a) && a.allocated[svc] != nil && s != svc && (s in a.servicesOnIP[x]) && HasIP(a.allocated[svc], x)
+//@     && HasPort(a.allocated[svc], p) ==> !HasPort(a.allocated[s], p)
+//@ lemma C03.holderSafe: forall a *Allocator, svc string :: Inv(a) && a.allocated[svc] != nil ==> SafeFor(a, svc, a.allocated[svc])
+
 //@ func New
+//@   ensures [distinct] InvD(result)
 //@   ensures result != nil && fresh(result) && Inv(result) && result.countersChangedCallback == countersCallback
 //@   ensures forall s string :: result.allocated[s] == nil
 
@@ -353,6 +366,7 @@ package allocator
 //@   modifies map[string]*alloc, map[Port]string, map[string]bool, map[string]int, map[string]PoolCounters, fresh *ipaddr.Prefix, fresh *ipaddr.Cursor, fresh *ipaddr.Position, fresh []ipaddr.Prefix, gint("cursor.pos"), fresh []string, fresh []interface{}, fresh *alloc, fresh []Port, fresh *key, $held
 //@   requires [unlocked] lockstate(a.countersMutex) == 0
 //@   ensures [unlocked] lockstate(a.countersMutex) == 0 && lockframe(a.countersMutex)
+//@   ensures [distinct] old(InvD(a)) ==> InvD(a)
 //@   requires [inv] Inv(a)
 //@   requires [cb] a.countersChangedCallback != nil && svc != nil
 //@   requires [pools] PoolsKeyedOK(a.pools.ByName)
@@ -576,6 +590,7 @@ package allocator
 //@   modifies map[string]*alloc, map[Port]string, map[string]bool, map[string]int, map[string]PoolCounters, fresh *ipaddr.Prefix, fresh *ipaddr.Cursor, fresh *ipaddr.Position, fresh []ipaddr.Prefix, gint("cursor.pos"), fresh []string, fresh []interface{}, fresh *alloc, fresh []Port, fresh *key, fresh *Allocation, fresh []net.IP, $held
 //@   requires [unlocked] lockstate(a.countersMutex) == 0
 //@   ensures [unlocked] lockstate(a.countersMutex) == 0 && lockframe(a.countersMutex)
+//@   ensures [distinct] old(InvD(a)) ==> InvD(a)
 //@   requires Inv(a) && a.countersChangedCallback != nil && svc != nil && PoolsKeyedOK(a.pools.ByName) && PortsOK(ports) && PoolListOK(pools)
 //@   ensures Inv(a)
 //@   ensures [others] forall s string :: s != svcKey ==> a.allocated[s] == old(a.allocated[s])
@@ -692,6 +707,7 @@ package allocator
 //@   modifies map[string]*alloc, map[Port]string, map[string]bool, map[string]int, map[string]PoolCounters, fresh *ipaddr.Prefix, fresh *ipaddr.Cursor, fresh *ipaddr.Position, fresh []ipaddr.Prefix, gint("cursor.pos"), fresh []string, fresh []interface{}, fresh *alloc, fresh []Port, fresh *key, fresh *Allocation, fresh []net.IP, fresh []*config.Pool, $held
 //@   requires [unlocked] lockstate(a.countersMutex) == 0
 //@   ensures [unlocked] lockstate(a.countersMutex) == 0 && lockframe(a.countersMutex)
+//@   ensures [distinct] old(InvD(a)) ==> InvD(a)
 //@   requires AllocatorOK(a) && svc != nil && PortsOK(ports)
 //@   ensures Inv(a)
 //@   ensures [others] forall s string :: s != svcKey ==> a.allocated[s] == old(a.allocated[s])
@@ -739,6 +755,7 @@ package allocator
 //@   modifies map[string]*alloc, map[Port]string, map[string]bool, map[string]int, map[string]PoolCounters, fresh *ipaddr.Prefix, fresh *ipaddr.Cursor, fresh *ipaddr.Position, fresh []ipaddr.Prefix, gint("cursor.pos"), fresh []string, fresh []interface{}, fresh *alloc, fresh []Port, fresh *key, fresh *Allocation, fresh []net.IP, $held
 //@   requires [unlocked] lockstate(a.countersMutex) == 0
 //@   ensures [unlocked] lockstate(a.countersMutex) == 0 && lockframe(a.countersMutex)
+//@   ensures [distinct] old(InvD(a)) ==> InvD(a)
 //@   requires AllocatorOK(a) && svc != nil && PortsOK(ports)
 //@   ensures Inv(a)
 //@   ensures [others] forall s string :: s != svcKey ==> a.allocated[s] == old(a.allocated[s])
@@ -768,6 +785,7 @@ package allocator
 //@   modifies map[string]*alloc, map[Port]string, map[string]bool, map[string]int, map[string]PoolCounters, fresh *ipaddr.Prefix, fresh *ipaddr.Cursor, fresh *ipaddr.Position, fresh []ipaddr.Prefix, gint("cursor.pos"), fresh []string, fresh []interface{}, fresh *alloc, fresh []Port, fresh *key, fresh *Allocation, fresh []net.IP, $held
 //@   requires [unlocked] lockstate(a.countersMutex) == 0
 //@   ensures [unlocked] lockstate(a.countersMutex) == 0 && lockframe(a.countersMutex)
+//@   ensures [distinct] old(InvD(a)) ==> InvD(a)
 //@   requires AllocatorOK(a) && svc != nil && PortsOK(ports)
 //@   ensures Inv(a)
 //@   ensures [others] forall s string :: s != svcKey ==> a.allocated[s] == old(a.allocated[s])
